@@ -1,4 +1,4 @@
-import Gallia.Proofs.Lemmas.ParseRange
+import Gallia.Proofs.Lemmas.ParseConfig
 /-!
   C20 — target URIs and range expressions denote exactly what the user wrote.
 
@@ -116,5 +116,82 @@ theorem unravel2d_render (rs : List ItemR) (h : ∀ r ∈ rs, r.WF) :
 
 example : unravel2d ['1', ':', '1', ',', '2', ' ', ' ', '1', '-', '3', ':', '0', ',', '2', '-', '4', ' ', ' ', '3'] = some [(1, some [0, 1, 2, 3, 4]), (2, some [0, 2, 3, 4]), (3, none)] := by
   decide +kernel
+
+
+/-! ## host:port -/
+
+/-- joining and splitting is lossless for every host over the host alphabet (lower-case names, IPv4, IPv6 with or
+    without zone) and every port 0..65535, whatever default port is supplied -/
+theorem split_join (h : Str) (hok : HostOK h) (p : Nat) (hp : p ≤ 65535) (dflt : Option Nat) :
+    splitHostPort (joinHostPort h p) dflt = some (h, some p) := splitHostPort_join h hok p hp dflt
+
+/-- dotted-quad IPv4 and colon-separated IPv6 literals are hosts in the sense of `split_join` -/
+theorem hostOK_of_chars (h : Str) (hne : h ≠ [])
+    (hc : ∀ c ∈ h, isLowerCh c = true ∨ isDigit c = true ∨ c = '.' ∨ c = ':' ∨ c = '-' ∨ c = '_' ∨ c = '%') : HostOK h := by
+  refine ⟨hne, fun c hm => ?_⟩
+  rcases hc c hm with h | h | rfl | rfl | rfl | rfl | rfl
+  · simp [hostChar, h]
+  · simp [hostChar, h]
+  all_goals decide
+
+example : HostOK ['f', 'e', '8', '0', ':', ':', '1'] := hostOK_of_chars _ (by simp) (by decide)
+example : joinHostPort ['f', 'e', '8', '0', ':', ':', '1'] 0 = ['[', 'f', 'e', '8', '0', ':', ':', '1', ']', ':', '0'] := by
+  decide +kernel
+example : HostOK ['1', '0', '.', '0', '.', '0', '.', '7'] := hostOK_of_chars _ (by simp) (by decide)
+
+/-- an explicit port always wins over the default, port 0 included; without a port the default is used -/
+theorem split_default (h : Str) (hok : HostOK h) (dflt : Option Nat) :
+    (hostInfo (netlocOf h none)).map (fun (x : Str × Option Nat) => (x.1, match x.2 with | some p => some p | none => dflt))
+      = some (h, dflt) := by
+  rw [hostInfo_netloc h hok none (fun q hq => by cases hq)]; rfl
+
+/-! ## target URIs -/
+
+/-- a URI built from scheme, host, optional port and parameters parses back to exactly these parts -/
+theorem uri_roundtrip (sch h : Str) (p : Option Nat) (args : Args) (hs : SchemeOK sch) (hok : HostOK h)
+    (hp : ∀ q, p = some q → q ≤ 65535) (ha : ArgsOK args) :
+    parseUri (fromParts sch h p args) = some ⟨sch, some h, some p, args⟩ :=
+  parseUri_fromParts sch h p args hs hok hp ha
+
+/-- `qs_flat` of a written query is the written parameter list (distinct keys, non-blank values) -/
+theorem qsFlat_roundtrip (args : Args) (ha : ArgsOK args) : qsFlat (queryOf args) = args := qsFlat_queryOf args ha
+
+/-- first occurrence of a repeated key wins, blank values are dropped -/
+example : qsFlat ['a', '=', '1', '&', 'a', '=', '2', '&', 'b', '=', '&', 'c'] = [(['a'], ['1'])] := by decide
+
+/-! ## the transports accept what was written, with the same numbers -/
+
+/-- DoIP: whatever URL-safe notation the four settings are written in, the transport reads the same numbers from
+    the URI built by `from_parts` -/
+theorem config_accepts_doip (h : Str) (hok : HostOK h) (p : Option Nat) (hp : ∀ q, p = some q → q ≤ 65535)
+    (s1 : Spelling) (src : Int) (s2 : Spelling) (tgt : Int) (act ver : Option (Spelling × Int))
+    (h1 : s1.UrlSafe) (h2 : s2.UrlSafe) (ha : optOK act) (hv : optOK ver) :
+    (parseUri (fromParts ['d', 'o', 'i', 'p'] h p (doipArgs s1 src s2 tgt act ver))).bind (fun u => doipConfig u.args)
+      = some ⟨src, tgt, act.map (·.2), ver.map (·.2)⟩ := by
+  rw [parseUri_fromParts _ h p _ ⟨⟨'d', _, rfl, by decide⟩, by decide⟩ hok hp (argsOK_doip s1 src s2 tgt act ver h1 h2 ha hv)]
+  exact doipConfig_args s1 src s2 tgt act ver h1 h2 ha hv
+
+/-- HSFZ, as the discoverer writes it (`ack_timeout` in decimal) -/
+theorem config_accepts_hsfz (h : Str) (hok : HostOK h) (p : Option Nat) (hp : ∀ q, p = some q → q ≤ 65535)
+    (s1 : Spelling) (src : Int) (s2 : Spelling) (dst : Int) (ack : Option Nat) (h1 : s1.UrlSafe) (h2 : s2.UrlSafe) :
+    (parseUri (fromParts ['h', 's', 'f', 'z'] h p (hsfzArgs s1 src s2 dst ack))).bind (fun u => hsfzConfig u.args)
+      = some ⟨src, dst, ack.map (fun n => (n : Int))⟩ := by
+  rw [parseUri_fromParts _ h p _ ⟨⟨'h', _, rfl, by decide⟩, by decide⟩ hok hp (argsOK_hsfz s1 src s2 dst ack h1 h2)]
+  exact hsfzConfig_args s1 src s2 dst ack h1 h2
+
+/-- ISO-TP, as the discoverer writes it (booleans as `true` / `false`, optional extended addresses and padding) -/
+theorem config_accepts_isotp (h : Str) (hok : HostOK h) (fd ext : Bool)
+    (s1 : Spelling) (src : Int) (s2 : Spelling) (dst : Int) (ea ra tp rp : Option (Spelling × Int))
+    (h1 : s1.UrlSafe) (h2 : s2.UrlSafe) (hea : optOK ea) (hra : optOK ra) (htp : optOK tp) (hrp : optOK rp) :
+    (parseUri (fromParts ['i', 's', 'o', 't', 'p'] h none (isotpArgs fd ext s1 src s2 dst ea ra tp rp))).bind
+        (fun u => isotpConfig u.args)
+      = some ⟨src, dst, some ext, some fd, none, ea.map (·.2), ra.map (·.2), tp.map (·.2), rp.map (·.2), none⟩ := by
+  rw [parseUri_fromParts _ h none _ ⟨⟨'i', _, rfl, by decide⟩, by decide⟩ hok (fun q hq => by cases hq)
+    (argsOK_isotp fd ext s1 src s2 dst ea ra tp rp h1 h2 hea hra htp hrp)]
+  exact isotpConfig_args fd ext s1 src s2 dst ea ra tp rp h1 h2 hea hra htp hrp
+
+/-- a missing required address or an unreadable number is refused -/
+example : doipConfig [(kSrcAddr, ['1'])] = none ∧ doipConfig [(kSrcAddr, ['1']), (kTargetAddr, ['h', 'a', 'n', 's'])] = none := by
+  decide
 
 end Gallia.C20
